@@ -130,6 +130,7 @@ type ModuleSvcSpec struct {
 
 // RigConfig fixes the in-memory (non-store) configuration of the service keeper for a scenario.
 type RigConfig struct {
+	ReentrantPauseSiblings bool // the other module answers "paused: insufficient balances" of one context by pausing its other contexts
 	ReentrantSelfKill bool // the other module answers a failed batch (response callback with an error) by killing that very context
 	ReentrantRestart bool // the other module reacts to a state callback (context paused for funds) by starting the context again at once
 	Reentrant bool // the other module reacts inside its callbacks: state callback -> kills that context; response callback with an error -> kills its other contexts
@@ -244,6 +245,23 @@ func NewRig(cfg RigConfig) *Rig {
 			if rc, ok := r.sk.GetRequestContext(ctx, id); ok && cfg.Reentrant {
 				if r.sk.KillRequestContext(ctx, id, rc.Consumer) == nil {
 					rec.log = append(rec.log, CallbackRec{Kind: "kill", Ctx: hexs(id)})
+				}
+			}
+			if cfg.ReentrantPauseSiblings {
+				var others [][]byte
+				var recs []servicetypes.RequestContext
+				r.sk.IterateRequestContexts(ctx, func(oid tmbytes.HexBytes, oc servicetypes.RequestContext) bool {
+					if oc.ModuleName == mod && !bytes.Equal(oid, id) {
+						others = append(others, append([]byte{}, oid...))
+						recs = append(recs, oc)
+					}
+					return false
+				})
+				for i := range others {
+					if r.sk.PauseRequestContext(ctx, others[i], recs[i].Consumer) == nil {
+						// the batch counter at the moment of the pause tells whether a later batch of this block came after it
+						rec.log = append(rec.log, CallbackRec{Kind: "pause", Ctx: hexs(others[i]), BatchCounter: recs[i].BatchCounter})
+					}
 				}
 			}
 			if rc, ok := r.sk.GetRequestContext(ctx, id); ok && cfg.ReentrantRestart {
